@@ -178,11 +178,17 @@ def gen_cases(ctx):
                 c["hostile"] = None
             if rng.random() < 0.25:  # a benign class rides along (first, so that it is exported before any exception)
                 c["classes"].insert(0, {"name": "Lsafe/Ok;", "methods": ["m"]})
-        else:
+        elif r < 0.9:
             mname = "/".join(rng.choice(mpieces) for _ in range(rng.choice([1, 2, 3, 4, 6])))
             if mname == "" or dd_count(mname) > MAX_DOTDOT - 1:
                 continue
             c = method_case(mname, rng.random() < 0.6)
+        else:
+            # structured family: <existing directories>/(..)^k/<file>; with the helper class the directories exist, so k decides
+            prefix = [rng.choice(["x", "y", "a b", "q"]) for _ in range(rng.choice([1, 1, 2, 3]))]
+            k = rng.randint(1, MAX_DOTDOT - 1)
+            mname = "/".join(prefix + [".."] * k + [rng.choice(["zz", "a b", "é"])])
+            c = method_case(mname, rng.random() < 0.8)
         c["form"] = "raw" if rng.random() < 0.2 else None
         key = json.dumps(c["classes"]) + str(c.get("form"))
         if key in seen:
